@@ -372,6 +372,15 @@ def _got_records(batch) -> list[tuple] | str:  # noqa: ANN001
     return out
 
 
+class _TailView(io.BytesIO):
+    """A BytesIO whose getvalue() hides the first `skip` bytes (what was in the buffer before the batch was written)."""
+
+    skip = 0
+
+    def getvalue(self) -> bytes:
+        return super().getvalue()[self.skip:]
+
+
 def _identity(res: Result, raw: bytes, b: dict, label: str) -> bool:
     """read_batch returns what is encoded; write_batch(read_batch(raw)) == raw. D4-aware."""
     from kio.records.readers import read_batch
@@ -405,11 +414,17 @@ def _identity(res: Result, raw: bytes, b: dict, label: str) -> bool:
     recs = _got_records(got)
     strict = _expected_records(b, False)
     trigger = any((b["base_timestamp"] + r["timestamp_delta"]) % 1000 for r in b["records"])
-    buf = io.BytesIO()
+    buf = _TailView()
+    lead = b"" if len(raw) % 2 else bytes([len(raw) % 251, 0x5A, 0xA5][: 1 + len(raw) % 3])  # half of the re-serialisations go into a buffer that already holds bytes
+    buf.write(lead)
+    buf.skip = len(lead)
     try:
         write_batch(buf, got)
     except Exception as exc:  # noqa: BLE001
         res.violation(f"rewrite-raises:{type(exc).__name__}", f"write_batch rejects what read_batch returned: {exc!r} ({label})", dict(payload, error=traceback.format_exc()))
+        return False
+    if io.BytesIO.getvalue(buf)[:len(lead)] != lead:
+        res.violation("rewrite-disturbs-buffer", f"write_batch changed the {len(lead)} bytes that were already in the buffer ({label})", dict(payload, buffer=io.BytesIO.getvalue(buf)))
         return False
     if recs == strict and buf.getvalue() == raw:
         res.count("identity_strict_ok")
